@@ -71,6 +71,7 @@ class IsaCheck:
         self.outs = outs
         self.w0 = w0
         self.findings = {}
+        self.last_full = None
         self.obligations = 0
         self.discharged = 0
         self.samples = []
@@ -78,6 +79,11 @@ class IsaCheck:
         self._A = None
         spec.build()
         self.pc_entry = bv.data_bv("pc", 24) + (0,) * 8
+        # precondition: the first instruction word was fetched from mapped memory, hence the
+        # PC at entry of exec() is at most H'FFFFEA (last mapped word + 2)
+        self.pre = bv.ule(self.pc_entry, bv.const(0xFFFFEA, 32))
+        self.ob = {}
+        self.cls = "misc"
         self.ccr0 = bv.ccr_bv()
         self.sems = {}
         self.constraint = constraint
@@ -99,11 +105,42 @@ class IsaCheck:
         if key in self.findings:
             return
         wit = None
+        detail = dict(detail or {})
         if cond is not None:
             a = bv.M.sat_one(cond)
             if a is not None:
                 wit = group_witness(bv.M.describe_assign(a))
+        full = self.last_full if self.last_full not in (None, 0) else cond
+        if full not in (None, 0, 1):
+            detail["extent"] = self.extent(full)
+        self.last_full = None
         self.findings[key] = Finding(props, key, form, aspect, msg, wit, detail)
+
+    def extent(self, d):
+        """fraction of the input space (over the variables the condition mentions, auxiliary
+        success flags and cost multipliers projected away) on which the violation occurs -
+        a semantic fingerprint of *which* inputs fail"""
+        Mx = bv.M
+        aux = set(r for r in Mx.support(d) if 100 <= r < 2000)
+        if aux:
+            d = Mx.exists(d, aux)
+        sup = sorted(Mx.support(d))
+        if not sup:
+            return "1/1"
+        n = Mx.sat_count(d, sup)
+        k = len(sup)
+        while n % 2 == 0 and k > 0:
+            n //= 2
+            k -= 1
+        return "%d/2^%d" % (n, k)
+
+    def count(self, ok):
+        c = self.ob.setdefault(self.cls, [0, 0])
+        c[0] += 1
+        self.obligations += 1
+        if ok:
+            c[1] += 1
+            self.discharged += 1
 
     def decode_cube(self, pc):
         """instruction-word bits that are constant on a trace: {rank: 0/1}"""
@@ -121,9 +158,8 @@ class IsaCheck:
     def differs(self, a, b, care):
         """condition (within care, under the array axioms) where bit vectors a and b differ; 0 if equal"""
         Mx = bv.M
-        self.obligations += 1
         if a == b:
-            self.discharged += 1
+            self.count(True)
             return 0
         d = 0
         for x, y in zip(a, b):
@@ -134,8 +170,13 @@ class IsaCheck:
                     if di != 0:
                         d = di
                         break
-        if d == 0:
-            self.discharged += 1
+        self.count(d == 0)
+        if d != 0:
+            full = 0
+            for x, y in zip(a, b):
+                if x != y:
+                    full = Mx.OR(full, Mx.AND(Mx.XOR(x, y), care))
+            self.last_full = full
         return d
 
     def decide_with_arrays(self, d):
@@ -207,41 +248,45 @@ class IsaCheck:
                     fixed = self.decode_cube(st.pc)
                 sem = spec.Sem(self.ip, f, self.pc_entry, self.ccr0, fixed)
                 f.sem(sem)
-                care = Mx.AND(Mx.AND(st.pc, cond), sem.assume)
+                care = Mx.AND(Mx.AND(Mx.AND(st.pc, cond), sem.assume), self.pre)
                 if care == 0:
                     continue
                 fs = self.form_stats.setdefault(name, {"traces": 0, "ok": 0, "err": 0, "panic": 0})
                 fs["traces"] += 1
                 self.compare(o, f, sem, care, fs)
+                if len(self.samples) < 6 and o.kind == "return":
+                    self.samples.append({"form": name, "trace_outcome": o.kind, "decode_bits_fixed": len(fixed),
+                                         "effects": [e[0] for e in st.eff], "path_condition_nodes": Mx.size(st.pc)})
         # unimplemented instructions must have no Ok path
         self.unimpl_checked = 0
+        self.cls = "decode"
         for u in spec.UNIMPL:
             cu = spec.pattern_cond(u.words)
             if Mx.AND(cu, self.constraint) == 0:
                 continue
-            nw = len(u.words)
             hit = 0
             for o in self.outs:
                 if o.kind != "return" or not isinstance(o.value, Enum) or o.value.variant != models.OK:
                     continue
-                # the path must have consumed at least the words the pattern constrains
                 c = Mx.AND(o.state.pc, cu)
                 if c != 0:
                     hit = Mx.OR(hit, c)
-            self.obligations += 1
             self.unimpl_checked += 1
+            self.count(hit == 0)
             if hit != 0:
                 self.add(["C07"], u.name, "unimpl-executed", "an encoding of the unimplemented instruction %s has a successful execution path" % u.name, hit)
-            else:
-                self.discharged += 1
         return self.findings
 
     def compare(self, o, f, sem, care, fs):
         Mx = bv.M
         st = o.state
         fam_props = [f.prop] if f.prop.startswith("C") else []
+        semcls = "sem:" + f.prop
+        stacky = any(x in f.name for x in ("+", "@-")) or f.family in ("BSR", "JSR", "RTS", "RTE", "TRAPA")
         if o.kind == "panic":
             fs["panic"] += 1
+            self.cls = "panic"
+            self.count(False)
             self.add(["C15"], f.name, "panic:%s:%s" % (o.info.get("kind"), o.info["fn"].split("::")[-1]),
                      "panic (%s %s) reachable in %s line %s" % (o.info.get("kind"), o.info.get("op"), o.info["fn"], o.info.get("line")), care,
                      {"stack": o.info.get("stack"), "line": o.info.get("line")})
@@ -254,31 +299,30 @@ class IsaCheck:
             fs["err"] += 1
             if "prim-failed" in st.tags:
                 return
-            self.obligations += 1
+            self.cls = "decode"
             bad = Mx.AND(care, Mx.NOT(sem.may_err))
+            self.count(bad == 0)
             if bad != 0:
                 origin = [t for t in st.tags if t.startswith("bail:")]
                 props = ["C07"] + fam_props
                 if any(("get_addr_disp" in t or "pc_disp" in t) for t in origin):
                     props.append("C08")
-                self.add(props, f.name, "reject", "a valid encoding of %s returns an error without any bus/cost failure (origin %s)" % (f.name, origin), bad, {"origin": origin})
-            else:
-                self.discharged += 1
+                self.add(props, f.name, "reject", "a valid encoding of %s returns an error without any bus/cost failure (error created in %s)" % (f.name, ",".join(t[5:] for t in origin) or "?"), bad, {"origin": origin})
             return
         fs["ok"] += 1
         cpu = st.mem[("h", "cpu")]
         fi = self.isa.fi
         # (a) length
+        self.cls = "decode"
         nf = st.ctr.get("fetch", 0)
-        self.obligations += 1
+        self.count(nf == sem.nwords - 1)
         if nf != sem.nwords - 1:
             self.add(["C07"] + fam_props, f.name, "length", "%s consumes %d words, encoding has %d" % (f.name, nf + 1, sem.nwords), care)
-        else:
-            self.discharged += 1
         if sem.mes:
             return
         sem_checks = f.family != "STC"
         # (b) pc
+        self.cls = semcls
         pcv = cpu.fields[fi["pc"]]
         d = self.differs(pcv.bits, sem.pc, care)
         if d != 0:
@@ -289,34 +333,40 @@ class IsaCheck:
             if ("ccr." + spec.FLAG_NAMES[i]) in sem.unchecked:
                 continue
             d = self.differs((ccr[i],), (sem.ccr[i],), care)
-            if d != 0 and sem_checks:
-                self.add(fam_props, f.name, "flag:" + spec.FLAG_NAMES[i], "CCR.%s after %s differs from the manual's" % (spec.FLAG_NAMES[i], f.name), d)
+            if d != 0:
+                self.add(fam_props or ["C07"], f.name, "flag:" + spec.FLAG_NAMES[i], "CCR.%s after %s differs from the manual's" % (spec.FLAG_NAMES[i], f.name), d)
         # (d) registers
         carr = cpu.fields[fi["er"]]
         for k in range(8):
+            self.cls = semcls
             ck = self.ip.arr_read(carr, bv.const(k, 3))
             sk = self.ip.arr_read(sem.regs, bv.const(k, 3))
             d = self.differs(ck, sk, care)
+            if stacky or f.family == "STC":
+                c = self.ob.setdefault("addr", [0, 0])
+                c[0] += 1
+                c[1] += 1 if d == 0 else 0
             if d != 0:
                 props = list(fam_props)
-                if any(x in f.name for x in ("+", "@-")) or f.family in ("BSR", "JSR", "RTS", "RTE", "TRAPA"):
+                if stacky:
                     props.append("C08")
                 if f.family == "STC":
                     props = ["C08"]
                 self.add(props, f.name, "reg", "general register ER%d after %s differs from the manual's" % (k, f.name), d, {"reg": k})
                 break
         # (e) memory effects
+        self.cls = "addr"
         cm = [e for e in st.eff if e[0] in ("memread", "memwrite")]
-        self.obligations += 1
+        self.count(len(cm) == len(sem.mem))
         if len(cm) != len(sem.mem):
             self.add(fam_props + ["C08"], f.name, "mem-count", "%s performs %d byte accesses, manual: %d" % (f.name, len(cm), len(sem.mem)), care)
         else:
-            self.discharged += 1
             for i, (ce, se) in enumerate(zip(cm, sem.mem)):
                 kind = "r" if ce[0] == "memread" else "w"
                 if kind != se[0]:
                     self.add(fam_props + ["C08"], f.name, "mem-order", "access %d of %s is a %s, manual: %s" % (i, f.name, kind, se[0]), care)
                     break
+                self.cls = "addr"
                 d = self.differs(ce[1], se[1], care)
                 if d != 0:
                     self.add(["C08"] + fam_props, f.name, "mem-addr", "address of byte access %d of %s differs from the manual's effective address" % (i, f.name), d, {"access": i})
@@ -324,17 +374,18 @@ class IsaCheck:
                 if kind == "r":
                     if ce[2] != se[2]:
                         self.add(["ENGINE"], f.name, "mem-var", "read variable mismatch", care)
-                elif se[2] is not None and "mem-value" not in sem.unchecked:
+                elif se[2] is not None and "mem-value" not in sem.unchecked and sem_checks:
+                    self.cls = semcls
                     d = self.differs(ce[2], se[2], care)
-                    if d != 0 and sem_checks:
+                    if d != 0:
                         self.add(fam_props, f.name, "mem-value", "value stored by byte access %d of %s differs from the manual's" % (i, f.name), d, {"access": i})
                         break
         # (f) cost terms
+        self.cls = "cost"
         if "cost" not in sem.unchecked:
             cc = [e for e in st.eff if e[0] == "cost"]
             remaining = list(cc)
             for (kind, n, addr) in sem.costs:
-                self.obligations += 1
                 found = None
                 near = None
                 for e in remaining:
@@ -360,9 +411,9 @@ class IsaCheck:
                         found = e
                         break
                     near = ("addr", e)
+                self.count(found is not None)
                 if found is not None:
                     remaining.remove(found)
-                    self.discharged += 1
                 else:
                     why = "missing"
                     dcond = care
@@ -374,7 +425,7 @@ class IsaCheck:
                                 dcond = dd
                     self.add(["C20"], f.name, "cost:%s%d" % (kind, n), "%s: cost term %s x%d (%s) %s" % (f.name, kind, n, "own PC" if addr is None else "operand address", why), dcond)
             for e in remaining:
-                self.obligations += 1
+                self.count(False)
                 nn = const_under(e[2], care)
                 self.add(["C20"], f.name, "cost-extra:%s%s" % (e[1], nn), "%s: extra cost term %s x%s not in the manual" % (f.name, e[1], nn), care)
             # (g) returned charge is the sum of the cost terms
@@ -387,4 +438,5 @@ class IsaCheck:
                 if d != 0:
                     self.add(["C20"], f.name, "charge-sum", "%s: returned charge is not the sum of its cost terms" % f.name, d)
             else:
+                self.count(False)
                 self.add(["C20"], f.name, "charge-opaque", "%s: returned charge not analysable" % f.name, care)
